@@ -44,13 +44,15 @@ def streams():
 
 # ---- part 1: real command line ------------------------------------------------------
 
-def run_cli(mode, text, supress, seed, status=0, workdir=None):
+def run_cli(mode, text, supress, seed, status=0, workdir=None, parent_wd=None):
     d = workdir
     path = os.path.join(d, 'in.log')
     with open(path, 'w') as f:
         f.write(text)
     env = dict(os.environ, PYTHONHASHSEED=str(seed), PYTHONDONTWRITEBYTECODE='1')
     env.pop('WAYLAND_DEBUG', None)
+    if parent_wd is not None:
+        env['WAYLAND_DEBUG'] = parent_wd      # whatever wayland-debug itself was started with, the program gets 1
     main_py = os.path.join(sut.REPO, 'main.py')
     opts = ['--supress'] if supress else []
     if mode == 'file':
@@ -77,7 +79,8 @@ def eval_modes(case):
         try:
             for mode in ('file', 'pipe', 'run'):
                 for seed in case['seeds']:
-                    out, err, rc, marker = run_cli(mode, text, case['supress'], seed, status=case['status'], workdir=d)
+                    out, err, rc, marker = run_cli(mode, text, case['supress'], seed, status=case['status'], workdir=d,
+                                                   parent_wd=case.get('parent_wd'))
                     outs[(mode, seed)] = (out, err)
                     want_rc = case['status'] if mode == 'run' else 0
                     if rc != want_rc:
@@ -110,6 +113,8 @@ def gen_modes(tier):
     for name in streams():
         for supress in (False, True):
             yield {'stream': name, 'supress': supress, 'seeds': seeds, 'status': 0}
+    for wd in ('0', 'server', ''):
+        yield {'stream': 'clean', 'supress': False, 'seeds': [0], 'status': 0, 'parent_wd': wd}
     statuses = [1, 2, 37, 255] if tier == 'quick' else list(range(1, 256))
     for st in statuses:
         yield {'stream': 'unterminated' if st % 2 else 'clean', 'supress': False, 'seeds': [0], 'status': st}
